@@ -538,7 +538,9 @@ class ConnHarness:
                     raise
                 loop_exc.append(type(e).__name__)
                 break
-            loop.run_until_idle()
+            if not self._settle():
+                loop_exc.append("Livelock")      # the connection never becomes idle again: an observation, not a harness fault
+                break
         for c in loop.exc_contexts:
             ex = c.get("exception")
             if ex is not None:
@@ -554,17 +556,35 @@ class ConnHarness:
         ev.update({"kind": "conn", "dispatched": [dict(r) for r in self.seen], "written": list(bytes(tr.written)),
                    "closed": bool(tr.closing), "loopExc": loop_exc, "taskExc": task_exc})
         # tidy up: end the connection
-        if not tr.closing:
-            try:
-                tr.feed_eof()
-                loop.run_until_idle()
-            except BaseException:  # noqa: BLE001
-                pass
-        if not tr.closed:
+        if "Livelock" in loop_exc:
+            th = getattr(proto, "_task_handler", None)
+            if th is not None:
+                th.cancel()
             tr.drop(None)
-            loop.run_until_idle()
+            if not self._settle():
+                loop._ready.clear()               # discard whatever still spins; the next run gets a fresh connection
+        else:
+            if not tr.closing:
+                try:
+                    tr.feed_eof()
+                    self._settle()
+                except BaseException:  # noqa: BLE001
+                    pass
+            if not tr.closed:
+                tr.drop(None)
+                self._settle()
         loop.exc_contexts.clear()
         return ev
+
+    def _settle(self) -> bool:
+        """Run the loop until idle; False if it does not become idle within the step budget."""
+        try:
+            self.loop.run_until_idle()
+            return True
+        except RuntimeError as e:
+            if "step budget" in str(e):
+                return False
+            raise
 
 
 def conn_key(ev: dict) -> tuple:
